@@ -75,10 +75,7 @@ FUNCTIONS = {
   ),
 }
 
-EXTERNS = {
-  'AsyncResult.wait': dict(params=[('timeout', 'real?')], yields=True, returns='bool',
-                           notes='blocks the calling greenlet: other greenlets run (gevent)'),
-}
+EXTERNS = {}
 
 # ---------------------------------------------------------------------------- watermark pool (C07)
 CLASSES.update({
